@@ -256,6 +256,21 @@ func modelUniverse(root string) (*c10Universe, error) {
 	return u, nil
 }
 
+// the first-push universe of spec/Malformed.tla (base "push"): << >> -> <<98304, 0>>
+func pushModelUniverse(root string) (*c10Universe, error) {
+	rng := rand.New(rand.NewSource(1011))
+	old, new := newTree(), newTree()
+	new.Files["a"], new.Files["e"] = randBytes(rng, 98304), []byte{}
+	u, err := newC10Universe(root, "pushmodel", old, new, true)
+	if err != nil {
+		return nil, err
+	}
+	end := wmsg{V1: c10End}
+	u.Plain = []wmsg{{V16: 0}, {V1: 1, B5: 98304}, end, {V16: 1}, {V1: 1}, end}
+	u.Opt = u.Plain
+	return u, nil
+}
+
 func genUniverse(root string, k int, rng *rand.Rand) (*c10Universe, error) {
 	old, new := newTree(), newTree()
 	sizes := []int{0, 1, 5, 4096, 65535, 65536, 65537, 98304, 131072, 140000, 200000}
@@ -601,6 +616,7 @@ type c10Runner struct {
 	first  int
 	n      int
 	hung   bool
+	pushU  *c10Universe // the first-push model universe (base "push"), built on first use
 }
 
 // run executes one (case, consumer variant) on the real code; the marker names it while it runs
@@ -860,7 +876,16 @@ func (rn *c10Runner) replay(u *c10Universe, path string) error {
 		if e.Cons == "hashinfo" {
 			hn = e.HN // (for the signature reader the model's count is a result, not an input)
 		}
-		rn.execute(u, c10Line{Src: "model", Cons: e.Cons, Base: e.Base, HN: hn, Pred: e.Pred}, msgs, e.CutK, e.How, -1, framings, rng)
+		uu := u
+		if e.Base == "push" {
+			if rn.pushU == nil {
+				if rn.pushU, err = pushModelUniverse(rn.tmp); err != nil {
+					return err
+				}
+			}
+			uu = rn.pushU
+		}
+		rn.execute(uu, c10Line{Src: "model", Cons: e.Cons, Base: e.Base, HN: hn, Pred: e.Pred}, msgs, e.CutK, e.How, -1, framings, rng)
 		k++
 	}
 	return sc.Err()
@@ -1098,6 +1123,11 @@ func (rn *c10Runner) one(unis []*c10Universe, path string) error {
 	for _, x := range unis {
 		if x.Name == line.Uni {
 			u = x
+		}
+	}
+	if u == nil && line.Uni == "pushmodel" {
+		if u, err = pushModelUniverse(rn.tmp); err != nil {
+			return err
 		}
 	}
 	if u == nil {
